@@ -47,6 +47,8 @@ func Merge(outDir, id, dest string) error {
 		total.NonTrivial += sf.NonTrivial
 		total.HashCapped = total.HashCapped || sf.HashCapped
 		total.Violations += sf.Violations
+		total.BulkEval += sf.BulkEval
+		total.BulkNT += sf.BulkNT
 		for k, v := range sf.Labels {
 			total.Labels[k] += v
 		}
@@ -97,17 +99,20 @@ func Merge(outDir, id, dest string) error {
 		labelPct[k] = strconv.FormatInt(v, 10) + " (" + strconv.FormatFloat(pct, 'f', 2, 64) + "%)"
 	}
 	cov := map[string]interface{}{
-		"evaluations":          total.Evaluations,
-		"distinct_nontrivial":  distinct,
-		"nontrivial_total":     total.NonTrivial,
-		"distinct_count_note":  "distinct_nontrivial = size of the union over shards of the sets of 64-bit hashes of non-trivial cases (each shard's set is capped at 2,000,000; capped=" + strconv.FormatBool(total.HashCapped) + ", so the number is a lower bound when capped)",
-		"rule":                 total.Rule,
-		"samples":              total.Samples,
-		"labels":               labelPct,
-		"excluded_known":       total.Excluded,
-		"exhaustive":           false,
-		"exhaustive_subspaces": total.Subspaces,
-		"shards":               len(files),
+		"evaluations":           total.Evaluations + total.BulkEval,
+		"distinct_nontrivial":   int64(distinct) + total.BulkNT,
+		"nontrivial_total":      total.NonTrivial + total.BulkNT,
+		"hashed_cases":          total.Evaluations,
+		"enumerated_cases":      total.BulkEval,
+		"enumerated_nontrivial": total.BulkNT,
+		"distinct_count_note":   "distinct_nontrivial = size of the union over shards of the sets of 64-bit hashes of non-trivial cases (each shard's set is capped at 2,000,000; capped=" + strconv.FormatBool(total.HashCapped) + ", so the number is a lower bound when capped) plus enumerated_nontrivial, the non-trivial points of completely enumerated sub-spaces (each point visited once by the enumeration, hence distinct; counted, not hashed)",
+		"rule":                  total.Rule,
+		"samples":               total.Samples,
+		"labels":                labelPct,
+		"excluded_known":        total.Excluded,
+		"exhaustive":            false,
+		"exhaustive_subspaces":  total.Subspaces,
+		"shards":                len(files),
 	}
 	for k, v := range meta.Extra {
 		cov[k] = v
